@@ -398,6 +398,58 @@ func WithCancel(parent context.Context) (context.Context, context.CancelFunc) {
 		Yield("cancel")
 		HBRelease(ctx.Done())
 		cancel()
+		// functions registered with AfterFunc run in threads of their own, started by the cancelling thread
+		afterMu.Lock()
+		fs := afterFuncs[ctx]
+		delete(afterFuncs, ctx)
+		afterMu.Unlock()
+		for _, af := range fs {
+			if !af.stopped && !af.started {
+				af.started = true
+				f := af.f
+				GoNamed("afterfunc", func() {
+					HBAcquire(ctx.Done())
+					f()
+				})
+			}
+		}
+	}
+}
+
+type afterFunc struct {
+	f                func()
+	stopped, started bool
+}
+
+var (
+	afterMu    sync.Mutex
+	afterFuncs = map[context.Context][]*afterFunc{}
+)
+
+// AfterFunc is context.AfterFunc under the scheduler: f runs in a new thread once ctx is cancelled. Supported for
+// contexts obtained from (the rewritten) context.WithCancel directly; for any other context the real function is used
+// (its goroutine is not under the scheduler's control).
+func AfterFunc(ctx context.Context, f func()) (stop func() bool) {
+	if cur == nil {
+		return context.AfterFunc(ctx, f)
+	}
+	if ctx.Err() != nil {
+		af := &afterFunc{f: f, started: true}
+		GoNamed("afterfunc", f)
+		return func() bool { return false && af.started }
+	}
+	af := &afterFunc{f: f}
+	afterMu.Lock()
+	afterFuncs[ctx] = append(afterFuncs[ctx], af)
+	afterMu.Unlock()
+	return func() bool {
+		afterMu.Lock()
+		defer afterMu.Unlock()
+		if af.started || af.stopped {
+			return false
+		}
+		af.stopped = true
+		return true
 	}
 }
 
